@@ -44,7 +44,7 @@ def budget(tier):
 @st.composite
 def case_st(draw):
     nd = draw(st.integers(2, 3))
-    dims = list(draw(st.permutations(gen.NAMES)))[:nd]
+    dims = list(draw(st.permutations(draw(gen.names_pool()))))[:nd]
     labels = []
     for i in range(nd):
         n = draw(st.integers(2, 3))
